@@ -619,12 +619,18 @@ impl Recovery {
                 _ => anyhow::bail!("Invalid live segment indices"),
             };
 
-        let nonlive_segments;
+        let mut nonlive_segments;
         let live_segments;
 
         if let Some((start, end)) = live_segments_indices {
-            live_segments = self.candidates.drain(start..=end).collect::<Vec<_>>();
+            // Remove the segments following the live range newest-first and the ones preceding it
+            // oldest-first, so that an interruption never leaves a gap in the segment IDs (which
+            // the next recovery would refuse).
+            let mut newer = self.candidates.drain(end + 1..).collect::<Vec<_>>();
+            newer.reverse();
+            live_segments = self.candidates.drain(start..).collect::<Vec<_>>();
             nonlive_segments = mem::take(&mut self.candidates);
+            nonlive_segments.extend(newer);
         } else {
             live_segments = Vec::new();
             nonlive_segments = mem::take(&mut self.candidates);
